@@ -356,8 +356,10 @@ def _map_gradient_coordinates(
             paint,
             c0=affine.map_point(paint.c0),
             c1=affine.map_point(paint.c1),
-            r0=affine.map_vector((paint.r0, 0)).x,
-            r1=affine.map_vector((paint.r1, 0)).x,
+            # length of the mapped radius: the x component alone shrinks under
+            # rotation and turns negative under a horizontal mirror
+            r0=affine.map_vector((paint.r0, 0)).norm(),
+            r1=affine.map_vector((paint.r1, 0)).norm(),
         )
     raise TypeError(type(paint))
 
